@@ -206,4 +206,26 @@ PROPS = {
             rapid("c06", "TestPropDisconnect", quick=(3, 6), thorough=(40, 14)),
         ],
     },
+    "C17": {
+        "level": "exploration",
+        "rule": "Server side: 'x STARTTLS CRLF' followed by an injected plaintext suffix (0-2 commands incl. LOGIN/AUTHENTICATE with "
+                "credentials, partial lines) delivered under drawn and (for 3 suffixes) every split into <=2/3 writes, each write "
+                "waited to be consumed so that segmentation is real; then a genuine TLS ClientHello or nothing; configurations "
+                "TLSConfig set/unset x InsecureAuth x before/after a plaintext login. Oracle: no backend call stems from the suffix, "
+                "after the STARTTLS OK line the server writes only TLS records, a handshake after an injected suffix fails and a clean "
+                "one succeeds with LOGIN inside TLS reaching the backend; capability lists show LOGINDISABLED xor AUTH= according to "
+                "InsecureAuth. Client side: imapclient.NewStartTLS against a scripted peer with greeting OK/OK+CAPABILITY/PREAUTH/BYE, "
+                "STARTTLS answered OK/NO/BAD, injected plaintext (capabilities, EXISTS/EXPUNGE, tagged OKs) in the same or a later "
+                "write, then a real TLS handshake, garbage or disconnect. Oracle: injected capabilities never appear in Caps(), "
+                "unilateral handlers are never invoked, no command is completed by injected tagged responses, PREAUTH/BYE/refusal make "
+                "NewStartTLS fail, a clean upgrade works. Non-trivial: accepted STARTTLS with a non-empty suffix/injection; distinct by "
+                "hash of the full case.",
+        "assumptions": ["a silent peer after STARTTLS OK is a stall scenario (property C10) and is replaced by a disconnect here"],
+        "units": [
+            plain("c17", "TestReplayScenarios"),
+            plain("c17", "TestEnumServerSplits"),
+            rapid("c17", "TestPropServerBoundary", quick=(150, 4), thorough=(3000, 8)),
+            rapid("c17", "TestPropClientBoundary", quick=(250, 4), thorough=(5000, 8)),
+        ],
+    },
 }
